@@ -420,12 +420,43 @@ def rule_hookreg(ctx, rep):
         pat.require(n >= 3, "%s: only %d accesses to the hook registration found" % (fl, n))
 
 
+def rule_wq_requester(ctx, rep):
+    """Work queue (hash-table resize worker), requester side of the fork bracket: pause = set PAUSE, (full barrier), wake the
+    worker, poll until PAUSED; resume = clear PAUSE only, poll until PAUSED is cleared.  Mirrors C16.pause for the call_rcu helpers."""
+    m = ctx.mod("cds", "perfn")
+    pw, rw = m.fn("urcu_workqueue_pause_worker"), m.fn("urcu_workqueue_resume_worker")
+    if pw is None or rw is None:
+        raise Broken("work queue pause/resume vanished")
+    rep.touch(pw)
+    rep.touch(rw)
+    ors = [e for e in pat.accesses(pw, "urcu_workqueue.flags", ("rmw",)) if e.rop == "or"]
+    pat.require(len(ors) == 1, "pause_worker: one `or` on flags")
+    PAUSE = ir.const_of(pw, ors[0].val)
+    wk = pat.calls(pw, "wake_worker_thread")
+    pat.require(wk, "pause_worker: wake_worker_thread")
+    rep.must_pass("C16.wqreq", "pause.PAUSE≺barrier≺wake", pw, [ors[0].inst], wk, lambda i: mm.is_compiler(i, pw.mod) and i is not ors[0].inst, what=">=compiler barrier between requesting PAUSE and waking the worker")
+    paused_edges = [(t.blk.id, s_, a) for t, s_, a in pat.branch_edges_on(pw, lambda a: a[0] in ("eq", "ne") and a[2] == ("c", 0) and a[1][0] == "bin" and a[1][1] == "and" and a[1][2][0] == "load" and a[1][2][1].endswith("urcu_workqueue.flags"))]
+    pat.require(paused_edges, "pause_worker: wait on PAUSED")
+    PAUSED = paused_edges[0][2][1][3][1]
+    rep.check(PAUSED != PAUSE and PAUSED & (PAUSED - 1) == 0, "C16.wqreq", "pause.waits-PAUSED", "pause polls a distinct acknowledgement bit (PAUSED=%#x, PAUSE=%#x)" % (PAUSED, PAUSE),
+              "pause_worker waits on %#x, the bit it set itself" % PAUSED, [pw.name])
+    leave = [(b, s_) for b, s_, a in paused_edges if a[0] == "ne"]
+    rep.must_take_edge("C16.wqreq", "pause.returns-only-PAUSED", pw, wk, None, leave, to_exit=True, include_start=False, what="pause_worker returns only after observing PAUSED")
+    ands = [e for e in pat.accesses(rw, "urcu_workqueue.flags", ("rmw",)) if e.rop == "and"]
+    pat.require(len(ands) == 1, "resume_worker: one `and` on flags")
+    msk = ir.const_of(rw, ands[0].val)
+    rep.check(msk is not None and (~msk & 0xffffffff) == PAUSE or (msk is not None and (~msk) == PAUSE), "C16.wqreq", "resume.clears-PAUSE-only", "resume clears exactly PAUSE", "resume clears %s" % (hex(~msk & 0xffffffff) if msk is not None else None), [ands[0].inst.where()])
+    cl = [(t.blk.id, s_) for t, s_, a in pat.branch_edges_on(rw, lambda a: a[0] == "eq" and a[2] == ("c", 0) and a[1][0] == "bin" and a[1][1] == "and" and a[1][3] == ("c", PAUSED))]
+    rep.must_take_edge("C16.wqreq", "resume.returns-only-unPAUSED", rw, [ands[0].inst], None, cl, to_exit=True, include_start=False, what="resume_worker returns only after the worker cleared PAUSED")
+
+
 RULES = [
     ("C16.handoff", rule_handoff),
     ("C16.handoff", rule_bp_handoff),
     ("C16.pause", rule_pause),
     ("C16.child", rule_child),
     ("C16.hooks", rule_hooks),
+    ("C16.wqreq", rule_wq_requester),
     ("C16.hookreg", rule_hookreg),
     ("C16.handover", rule_child_handover),
     ("C16.bpmask", rule_bp_mask),
